@@ -255,6 +255,7 @@ def check(ctx):
         ctx.guard('R5', fsite(f), r5)
     ctx.count('accumulator::result definitions', nres, 2)
     _shared(ctx)
+    counters_stay_integers(ctx, 'R7.counters_stay_integers')
 
 
 def counters_converted_before_combined(ctx, rule, funcs):
@@ -279,6 +280,54 @@ def counters_converted_before_combined(ctx, rule, funcs):
                           {'abstract_counterexample': 'calls = 5e9: calls*(calls-1) mod 2^64 instead of 2.5e19'})
         else:
             ctx.holds(rule, fsite(f), 'every counter is converted to the numeric type before it is multiplied')
+
+
+def counters_stay_integers(ctx, rule):
+    """call counters are integers from the point where they are counted to the result that reports
+    them: a detour through the floating-point type (e.g. reducing them in the same buffer as the sums)
+    rounds counts above 2^mantissa (float: 2^24) and the reported counters are no longer exact"""
+    p = ctx.prog
+    fs = list(instances(p, 'hep::allreduce_result')) + \
+        [r for r in instances(p, 'hep::accumulator::result')]
+    n = 0
+    for f in fs:
+        ctx.analysed(f)
+
+        def r7(f=f):
+            s, ex = summarise(p, f)
+            convs = [e for e, l in flat_effects(s.effects) if e['kind'] == 'conv']
+            bad = []
+            seen = set()
+
+            def counters(t):
+                if not isinstance(t, tuple) or id(t) in seen:
+                    return
+                seen.add(id(t))
+                if t and t[0] == 'obj':
+                    for nm, v in T.obj_fields(t).items():
+                        if nm in ('calls_', 'non_zero_calls_', 'finite_calls_'):
+                            if any(isinstance(x, tuple) and x and x[0] in ('trunc',) for x in T.subterms(v)):
+                                bad.append((nm, v))
+                        else:
+                            counters(v)
+                    if t[2] is not None:
+                        counters(t[2])
+                    return
+                for c in t[1:]:
+                    counters(c)
+            counters(s.ret)
+            if bad:
+                ctx.violation(rule, fsite(f), 'the counter %s of the returned result is obtained by converting a '
+                              'floating-point value back to an integer: counts beyond the mantissa (2^24 for '
+                              'float) come back rounded' % bad[0][0].strip('_'),
+                              {'counter': T.pretty(bad[0][1])[:300],
+                               'conversions_at': sorted(set(e['where'] for e in convs))[:4]})
+            else:
+                ctx.holds(rule, fsite(f), 'calls / non_zero_calls / finite_calls of the returned result never pass '
+                          'through a floating-point value')
+        ctx.guard(rule, fsite(f), r7)
+        n += 1
+    ctx.count('functions building results from counters', n, 2)
 
 
 def _shared(ctx):
